@@ -427,6 +427,9 @@ func ruleLossyConv(p *Prog, r *Report) {
 					continue
 				}
 				nConv += u.sites
+				if u.sites > 1 {
+					r.Credit(rule, u.sites-1) // a conversion in a helper stands for each of the helper's call sites
+				}
 				st, dt := types.TypeString(cv.X.Type(), nil), types.TypeString(cv.Type(), nil)
 				key := fmt.Sprintf("%s:ast.%s:%s->%s", rule, name, st, dt)
 				if slo.Cmp(dlo) >= 0 && shi.Cmp(dhi) <= 0 {
